@@ -1,3 +1,7 @@
+import os
+import re
+
+from . import common as C
 from .runner import Spec
 
 T = 1_000_000_000
@@ -40,7 +44,12 @@ class C10(Spec):
             "issued exactly at a tick")
     trusted_base = ["Go channel / select / time.Ticker semantics as encoded in Got.Model.Delayed (ticker channel holds one tick, "
                     "further ticks are dropped; select picks any ready case)",
-                    "Go runtime faketime clock (time advances only when every goroutine is blocked = the model's maximal progress)"]
+                    "Go runtime faketime clock (time advances only when every goroutine is blocked = the model's maximal progress)",
+                    "container/heap under std.PriorityQueue: not trusted by contract — the model has its own transcription (DelayedHeap), and "
+                    "the library source ($GOROOT/src/container/heap/heap.go) is re-translated every run (tools/srcfacts/minigo_heap.go -> "
+                    "Got/Generated/AstContainerHeap.lean) and proved to compute DelayedHeap.push/pop (C10_translated_source_*); trusted there: "
+                    "the translator, the MiniGoHeap interpreter and that std's `sorter` is the usual slice-backed heap.Interface "
+                    "(the interpreted terms are compared with the running library on every case of the C20 correspondence)"]
     assumptions = ["handlers are non-nil", "never-early/once hold for all queues; lateness, order and no-loss are claimed for queues that are never closed",
                    "deadline order is claimed for delays >= 0 and while the loop was never blocked on a full target queue"]
 
@@ -108,6 +117,17 @@ class C10(Spec):
         ctx["coverage"]["monitor_unchecked_lines"] = sum(1 for m in model if m.startswith("ok unchecked"))
         ctx["coverage"]["monitor_oracle_only_lines"] = sum(1 for m in model if m.startswith("ok oracle-only"))
         ctx["coverage"]["monitor_tie_order_lines"] = sum(1 for m in model if m.startswith("ok tie-order"))
+        # translator tie of container/heap: every function must have been accepted by the translator
+        notes = {}
+        gen = os.path.join(C.LEAN, "Got", "Generated", "AstContainerHeap.lean")
+        if os.path.exists(gen):
+            for m in re.finditer(r'^def (\w+)Note : String := "((?:[^"\\]|\\.)*)"', open(gen).read(), re.M):
+                notes[m.group(1)] = m.group(2)
+        bad = {f: notes.get(f, "<no translation>") for f in ("h_up", "h_down", "h_Init", "h_Push", "h_Pop", "h_Remove", "h_Fix")
+               if notes.get(f) != "ok"}
+        ctx["coverage"]["translation_notes"] = "ok" if not bad else bad
+        if bad:
+            ctx["broken"].append({"layer": "L2", "what": "translator: container/heap no longer inside the MiniGoHeap fragment: %s" % bad})
 
     def nontrivial(self, script, impl):
         try:
